@@ -264,7 +264,7 @@ func cmdCheck(args []string) int {
 	cov["traces_validated_against_impl"] = validated
 	if vnote != "" {
 		cov["native_validation"] = vnote
-		if strings.HasPrefix(vnote, "MISMATCH") {
+		if strings.Contains(vnote, "MISMATCH") {
 			inconclusive = append(inconclusive, vnote)
 			cov["inconclusive"] = inconclusive
 		}
